@@ -103,7 +103,7 @@ def random_case(ctx, idx, rng):
             m, n = n, m
         if shape_kind == 'wide' and m > n:
             m, n = n, m
-    lay = str(rng.choice(['zero', 'sorted', 'unsorted', 'q0sorted', 'q1sorted', 'disjoint', 'big', 'pairs', 'negative', 'repeated', 'huge', 'extreme-signs', 'int8', 'wrap-sorted', 'wrap-sorted-int8', 'int8-small', 'aliased', 'aliased', 'int-extremes', 'descending', 'descending']))
+    lay = str(rng.choice(['zero', 'sorted', 'unsorted', 'q0sorted', 'q1sorted', 'disjoint', 'big', 'pairs', 'negative', 'repeated', 'huge', 'extreme-signs', 'int8', 'wrap-sorted', 'wrap-sorted-int8', 'int8-small', 'aliased', 'aliased', 'int-extremes', 'descending', 'descending', 'pm-boundary', 'pm-boundary']))
     r = int(rng.integers(1, 4))
     if big >= 160 and rng.random() < 0.4:
         lay = 'many-sectors'
